@@ -5,6 +5,23 @@ from pyvc import alg
 from .common import F, G, H, MISS, S, Case, Env, basic_shape_clauses, case_of, minmax, pval, series_grid
 
 
+def _as_dtype(e, x):
+    """real runs of a grid entry with "dtype": the same numbers as an array of that (narrow) type - the
+    model's numbers are exact reals, so a comparison carried out in the narrow type shows up as a
+    conformance mismatch that the real run's contract evaluation turns into a violation"""
+    if getattr(e, "mode", None) == "real" and getattr(e, "dtype", None):
+        import numpy as np
+
+        return np.asarray(x).astype(e.dtype)
+    return x
+
+
+def _f32(v):
+    import numpy as np
+
+    return float(np.float32(v))
+
+
 class GrossRange(Case):
     module = "ioos_qc.qartod"
     function = "gross_range_test"
@@ -18,12 +35,14 @@ class GrossRange(Case):
         e.f0, e.f1 = mk.real("f0"), mk.real("f1")
         if self.params["suspect"]:
             e.s0, e.s1 = mk.real("s0"), mk.real("s1")
+        e.mode = mk.mode
+        e.dtype = mk.values.get("dtype") if mk.mode != "sym" else None
         return e
 
     def call(self, mod, e):
         seq = list if self.params.get("seq") == "list" else tuple
         sus = seq((e.s0, e.s1)) if self.params["suspect"] else None
-        return mod.gross_range_test(e.x, seq((e.f0, e.f1)), sus)
+        return mod.gross_range_test(_as_dtype(e, e.x), seq((e.f0, e.f1)), sus)
 
     def _spans(self, e):
         flo, fhi = minmax(pval(e.f0), pval(e.f1))
@@ -65,6 +84,12 @@ class GrossRange(Case):
                     if s_:
                         v["s0"], v["s1"] = s_
                     yield v
+        # float32 data next to bounds that float32 cannot hold exactly (0.1, 0.7, ...)
+        for xs in ([_f32(0.1), _f32(0.7), _f32(0.4)], [_f32(0.2), _f32(0.6)], [_f32(0.1)], [_f32(0.05), _f32(0.75), None]):
+            v = {"n": len(xs), "x": list(xs), "f0": 0.1, "f1": 0.7, "dtype": "float32", "keep": 1}
+            if self.params["suspect"]:
+                v["s0"], v["s1"] = 0.2, 0.6
+            yield v
 
 
 def cases():
@@ -88,6 +113,8 @@ class ValidRange(Case):
     def declare(self, mk):
         e = Env()
         e.n = mk.length("n")
+        e.mode = mk.mode
+        e.dtype = mk.values.get("dtype") if mk.mode != "sym" else None
         k = self.params["kind"]
         if k == "float":
             e.x = mk.series("x", e.n)
@@ -105,7 +132,7 @@ class ValidRange(Case):
         return e
 
     def call(self, mod, e):
-        return mod.valid_range_test(e.x, (e.lo, e.hi), start_inclusive=self.params["si"], end_inclusive=self.params["ei"])
+        return mod.valid_range_test(_as_dtype(e, e.x), (e.lo, e.hi), start_inclusive=self.params["si"], end_inclusive=self.params["ei"])
 
     def post(self, e, res, k):
         x, miss = e.x.val(k), e.x.nan(k)
@@ -148,6 +175,14 @@ class ValidRange(Case):
                     v["lo"] = lo
                 if self.params["hi"]:
                     v["hi"] = hi
+                yield v
+        if k == "float":
+            for xs in ([_f32(0.1), _f32(0.7), _f32(0.4)], [_f32(0.1)], [_f32(0.7), None]):
+                v = {"n": len(xs), "x": list(xs), "dtype": "float32", "keep": 1}
+                if self.params["lo"]:
+                    v["lo"] = 0.1
+                if self.params["hi"]:
+                    v["hi"] = 0.7
                 yield v
 
 
